@@ -333,6 +333,16 @@ func TestC21Sequential(t *testing.T) {
 
 		fmt.Sscanf(sh, "%d/%d", &i, &k)
 
+		if i == 0 {
+			// directed probe for the recorded finding seq:authenticate:accepts:other-key (kept under test on
+			// every run, whatever the PRNG histories happen to contain): cache a token through Authenticate,
+			// change the server key, present it again through every door
+			r.Probe("seq:authenticate:accepts:other-key")
+			runHistory(t, r, seqCase{Index: -1, Ops: []seqOp{{K: "issue", S: 0, A: "1h"}, {K: "validate", S: 0, A: "authenticate"}, {K: "setkey", A: "B"},
+				{K: "validate", S: 0, A: "authenticate"}, {K: "validate", S: 0, A: "cipher.Validate"}, {K: "validate", S: 0, A: "cipher.Extract"},
+				{K: "advance", S: 0, A: "59s"}, {K: "validate", S: 0, A: "authenticate"}, {K: "setkey", A: "A"}, {K: "validate", S: 0, A: "authenticate"}}})
+		}
+
 		for h := i; h < total; h += k {
 			rng := vh.Rand(fmt.Sprintf("c21-seq-%d", h))
 			runHistory(t, r, seqCase{Index: h, Ops: genHistory(rng, steps)})
@@ -380,6 +390,7 @@ type shardReport struct {
 	Inconclusive []string         `json:"inconclusive"`
 	Counters     map[string]int64 `json:"counters"`
 	Notes        []string         `json:"notes"`
+	ProbesRun    []string         `json:"probes_run"`
 }
 
 func runShards(t *testing.T, test string, k int) []shardReport {
@@ -464,6 +475,10 @@ func mergeShards(r *vh.Report, shards []shardReport) {
 
 		for _, x := range s.Notes {
 			r.Note(x)
+		}
+
+		for _, x := range s.ProbesRun {
+			r.Probe(x)
 		}
 	}
 }
